@@ -374,6 +374,8 @@ func makeTarget(c *bindCase, st reflect.Type) (any, func() any) {
 		return reflect.New(st).Elem().Interface(), none
 	case "nilptr-struct":
 		return reflect.Zero(reflect.PointerTo(st)).Interface(), none
+	case "nilptr-slice":
+		return reflect.Zero(reflect.PointerTo(reflect.SliceOf(st))).Interface(), none
 	case "ptr-int":
 		return new(int), none
 	case "ptr-string":
